@@ -108,16 +108,36 @@ func (s *Sim) PfxSync(i int) {
 	}
 }
 
-// PfxFetchStep resolves the oldest parked prefix-data fetch of router i: Data from the addressed
-// router's repo if it is reachable and has it (and fail is false), a timeout otherwise.
-func (s *Sim) PfxFetchStep(i int, fail bool) bool {
-	p := s.Parked(i, KPfxData)
-	if len(p) == 0 {
+// PfxTargets lists the routers for which router i has a parked prefix-data fetch, ascending. (The
+// order in which the real code expresses several fetches follows Go map iteration and is therefore
+// not part of any event's identity.)
+func (s *Sim) PfxTargets(i int) []int {
+	set := map[int]bool{}
+	for _, x := range s.Parked(i, KPfxData) {
+		set[x.Target] = true
+	}
+	out := make([]int, 0, len(set))
+	for d := range set {
+		out = append(out, d)
+	}
+	sort.Ints(out)
+	return out
+}
+
+// PfxFetchStep resolves router i's parked prefix-data fetch addressed to router d: Data from d's
+// repo if d is reachable and has it (and fail is false), a timeout otherwise.
+func (s *Sim) PfxFetchStep(i, d int, fail bool) bool {
+	var x *Expressed
+	for _, y := range s.Parked(i, KPfxData) {
+		if y.Target == d {
+			x = y
+			break
+		}
+	}
+	if x == nil {
 		return false
 	}
-	x := p[0]
 	s.removeParked(x)
-	d := x.Target
 	if fail || d < 0 || !s.Nodes[d].Up || !s.Reachable(i, d) {
 		s.deliverFailure(x, ndn.InterestResultTimeout)
 		return true
@@ -318,9 +338,14 @@ func (s *Sim) CheckProgress(maxSteps int) []Finding {
 		for progress := true; progress && steps < maxSteps; {
 			progress = false
 			for i, n := range s.Nodes {
-				if n.Up && s.PfxFetchStep(i, false) {
-					progress = true
-					steps++
+				if !n.Up {
+					continue
+				}
+				for _, d := range s.PfxTargets(i) {
+					if s.PfxFetchStep(i, d, false) {
+						progress = true
+						steps++
+					}
 				}
 			}
 		}
@@ -411,15 +436,18 @@ func (sn *Snap) CanonPrefix() string {
 		if len(n.CmdProblems) > 0 {
 			fmt.Fprintf(&b, " cmdproblems=%d", len(n.CmdProblems))
 		}
+		var pk []string
 		for _, x := range n.Eng.outbox {
 			if x.Kind == KPfxData {
 				if x.Snap {
-					fmt.Fprintf(&b, " P(pfx r%d snap)", x.Target)
+					pk = append(pk, fmt.Sprintf(" P(pfx r%d snap)", x.Target))
 				} else {
-					fmt.Fprintf(&b, " P(pfx r%d -%s)", x.Target, gap(s.Nodes[x.Target].PubSeq, x.Seq))
+					pk = append(pk, fmt.Sprintf(" P(pfx r%d -%s)", x.Target, gap(s.Nodes[x.Target].PubSeq, x.Seq)))
 				}
 			}
 		}
+		sort.Strings(pk)
+		b.WriteString(strings.Join(pk, ""))
 	}
 	for d, m := range s.Nodes {
 		if !m.Up {
